@@ -111,6 +111,15 @@ type c10Narrow struct {
 	Stamps []time.Time
 }
 
+type c10Ptrs struct {
+	P *time.Time
+	Q *time.Time
+	L []*time.Time
+	A *c10Event
+	R *time.Time
+	B *c10Event
+}
+
 type c10Event struct {
 	At time.Time
 	N  int32
@@ -271,6 +280,20 @@ func (c10) Run(c Case, env *Env) Result {
 					}
 				})
 				res.Count("timestamps_behind_dropped_timestamp_fields", 1)
+			} else if j%5 == 3 {
+				// timestamps behind POINTERS: in pointer fields, twice the same pointer (a timestamp is a value on the
+				// wire and takes no reference number), in a list of pointers, in front of a shared struct pointer
+				tp := t
+				o1p := o1
+				v = &c10Ptrs{P: &tp, Q: &tp, L: []*time.Time{&o1p, &tp, nil, &tp}, A: first, R: &o1p, B: first}
+				how = "timestamps behind pointers"
+				o = roundTrip(v)
+				res.Count("timestamps_behind_pointers", 1)
+				if o.Panic == nil && o.EncErr == nil && o.DecErr == nil {
+					if d, ok := o.Dec.(*c10Ptrs); ok && zoo.Equiv(v, o.Dec, zoo.EquivOpts{}) == "" && d.A != d.B {
+						viol("mismatch:sharing", fmt.Sprintf("%s (%s): the struct pointer shared by two fields behind the timestamps came back as two objects", how, hexClip(o.Wire)))
+					}
+				}
 			} else if classOnly {
 				o = classOnlyRoundTrip(v)
 				how = "nil name map / class-only type map"
@@ -289,6 +312,8 @@ func (c10) Run(c Case, env *Env) Result {
 			default:
 				if d := zoo.Equiv(v, o.Dec, zoo.EquivOpts{}); d != "" {
 					viol("mismatch:instant", fmt.Sprintf("%s (%s): %s", how, hexClip(o.Wire), d))
+				} else if _, ptrs := v.(*c10Ptrs); ptrs {
+					// (pointer identity of timestamps is not carried: judged above through the struct pointer)
 				} else if d := zoo.SameSharing(v, o.Dec); d != "" {
 					viol("mismatch:sharing", fmt.Sprintf("%s (%s): %s", how, hexClip(o.Wire), d))
 				}
